@@ -1,7 +1,8 @@
 (* C07 -- declarative specification of what yaml-paths must report.
 
    A document is walked by positions ([reach]); the reportable places are
-   - value places: a scalar that is a mapping value or a sequence element,
+   - value places: a scalar that is a mapping value or a sequence element, or
+                   the lone scalar a document consists of (at the root),
    - key places:   a key of a mapping,
    - member places: a member of a set,
    each named by its location (Doc.loc).  A place satisfies the expression when
@@ -21,13 +22,23 @@ Inductive reach : node -> loc -> node -> Prop :=
   | reach_here : forall n, reach n [] n
   | reach_step : forall n r c l m, child_at n r c -> reach c l m -> reach n (r :: l) m.
 
-(* a scalar that is a mapping value or a sequence element, at location l (the
-   root itself is not a place: it has no parent to be reported in).  Places
-   name the scalar NODE, not just its Python value: an anchored YAML boolean
-   (ruamel's ScalarBoolean, Doc.is_sbool) has the Python value 1/0 but is
-   searched as a Boolean (Searches.search_matches, C12). *)
+(* A null document is empty: it has no nodes (the library's Processor yields
+   nothing for any path on it), hence no places. *)
+Definition null_doc (d : node) : bool :=
+  match d with NLeaf _ PNone => true | _ => false end.
+
+(* the document itself when it is a lone scalar: the place at the root *)
+Definition root_place (d : node) (l : loc) (s : node) : Prop :=
+  l = [] /\ s = d /\ is_leaf d = true /\ null_doc d = false.
+
+(* a scalar that is a mapping value or a sequence element, at location l, or
+   the lone scalar a document consists of.  Places name the scalar NODE, not
+   just its Python value: an anchored YAML boolean (ruamel's ScalarBoolean,
+   Doc.is_sbool) has the Python value 1/0 but is searched as a Boolean
+   (Searches.search_matches, C12). *)
 Definition value_place (d : node) (l : loc) (s : node) : Prop :=
-  exists l0 p r, l = (l0 ++ [r])%list /\ reach d l0 p /\ child_at p r s /\ is_leaf s = true.
+  (exists l0 p r, l = (l0 ++ [r])%list /\ reach d l0 p /\ child_at p r s /\ is_leaf s = true)
+  \/ root_place d l s.
 
 Definition key_place (d : node) (l : loc) (kn : node) : Prop :=
   exists l0 i kvs v,
@@ -200,30 +211,31 @@ Definition wanted (o : opts) (d : node) (l : loc) : Prop :=
 Definition satisfiesb (s : node) : bool :=
   match term_matches lit re_search tm (node_hay s) with Ok true => true | _ => false end.
 
-(* Guard of the exclusion theorem: no anchored node is met for the FIRST time
-   inside a part of the document that the search does not enter -- beneath an
-   excluded aliased value / element, beneath the value of an excluded aliased
-   key, inside a merged-in entry when neither alias option is on, beneath a
-   key that satisfies the expression when keys are searched (known finding
-   key_match_prunes_subtree: such an anchor is not recorded, and a later alias
-   of it passes for the original). *)
-Fixpoint exposed (mt : mtable) (o : opts) (n : node) (pre : list node) {struct n} : bool :=
+(* What the YAML loader guarantees about sharing (a well-formedness guard like
+   nodup_keys, not a finding): an aliased repeat and a merged-in entry ARE the
+   objects met before, so no anchored node occurs for the first time inside
+   them.  It is asked only where the search relies on it: beneath an aliased
+   value / element the options exclude, and inside a merged-in entry when
+   neither alias option is on.  (Beneath the value of an excluded aliased key,
+   and beneath a matched key, the search records the anchors itself:
+   record_anchors.) *)
+Fixpoint shared_closed (mt : mtable) (o : opts) (n : node) (pre : list node) {struct n} : bool :=
   match n with
   | NSeq _ els =>
       all_at elem_occs
              (fun pre (_ : nat) e =>
                 if negb (o_valias o) && is_repeat pre e then all_rep (pre ++ self_occ e) (anc_occs e)
-                else exposed mt o e (pre ++ self_occ e)%list)
+                else shared_closed mt o e (pre ++ self_occ e)%list)
              els 0 pre
   | NMap i kvs =>
       all_at entry_occs
              (fun pre pos kv =>
                 let pre2 := ((pre ++ self_occ (fst kv)) ++ self_occ (snd kv))%list in
                 if skip_merged mt o (oid i) pos then all_rep pre (entry_occs kv)
-                else if (negb (o_kalias o) && is_repeat pre (fst kv)) || (o_keys o && satisfiesb (fst kv))
-                        || (negb (o_valias o) && is_repeat (pre ++ self_occ (fst kv)) (snd kv))
+                else if negb (o_kalias o) && is_repeat pre (fst kv) then true
+                else if negb (o_valias o) && is_repeat (pre ++ self_occ (fst kv)) (snd kv)
                      then all_rep pre2 (anc_occs (snd kv))
-                     else exposed mt o (snd kv) pre2)
+                     else shared_closed mt o (snd kv) pre2)
              kvs 0 pre
   | _ => true
   end.
@@ -236,14 +248,16 @@ Definition vplace (mt : mtable) (o : opts) (d : node) (l : loc)
 Definition vjustified (mt : mtable) (o : opts) (d : node) (h : hit) : Prop :=
   match h_kind h with
   | HValue => o_values o = true /\
-              exists s, vplace mt o d (h_loc h) (vplace_val mt o) s /\ is_leaf s = true /\ satisfies s
+              exists s, (vplace mt o d (h_loc h) (vplace_val mt o) s \/ root_place d (h_loc h) s) /\
+                        is_leaf s = true /\ satisfies s
   | HKey => o_keys o = true /\ exists k, vplace mt o d (h_loc h) (vplace_key mt o) k /\ satisfies k
   | HMember => exists m, vplace mt o d (h_loc h) (vplace_member o) m /\ satisfies m
   | _ => False
   end.
 
 Definition vwanted (mt : mtable) (o : opts) (d : node) (l : loc) : Prop :=
-  (o_values o = true /\ exists s, vplace mt o d l (vplace_val mt o) s /\ is_leaf s = true /\ satisfies s)
+  (o_values o = true /\ exists s, (vplace mt o d l (vplace_val mt o) s \/ root_place d l s) /\
+                                  is_leaf s = true /\ satisfies s)
   \/ (o_keys o = true /\ exists k, vplace mt o d l (vplace_key mt o) k /\ satisfies k)
   \/ (exists m, vplace mt o d l (vplace_member o) m /\ satisfies m).
 
